@@ -64,3 +64,24 @@ Print Assumptions C13_concurrent_own_verdict.
 Theorem C13_source_lock_discipline : confirm_shape_ok = true.
 Proof. vm_compute. reflexivity. Qed.
 Print Assumptions C13_source_lock_discipline.
+
+(* ---------- the verdict, returns of other messages included ---------- *)
+From AV Require Import Proofs.RpcRetP.
+(* On a confirming channel, for ANY script in which the frames before the verdict neither are a
+   verdict nor close the channel - returned messages (of this or of earlier publishes) and their
+   content included, in any number of reads - a publish that does not ask for the mandatory
+   check returns True exactly when the first Ack/Nack is an Ack, and leaves no bookkeeping
+   behind: no verdict is left over for the next publish. *)
+Theorem C13_outcome_with_returns : forall s c v pre tpre f tpost rest,
+  c <> 0%nat -> get_chan (s_chans s) c = Some v -> conn_healthy s -> s_io s = true ->
+  s_sendfail s = false ->
+  c_state v = OPEN -> c_errs v = [] -> c_req v = [] -> c_resp v = [] -> c_confirm v = true ->
+  forallb (fun t => forallb (mild c [NAck; NNack]) t) pre = true ->
+  forallb (mild c [NAck; NNack]) tpre = true ->
+  in_names (f_name f) [NAck; NNack] = true ->
+  exists s' v',
+    do_publish (pre ++ (tpre ++ (c, f) :: tpost) :: rest) s c v false
+      = (s', v', RBool (fname_eqb (f_name f) NAck), rest) /\
+    c_req v' = [] /\ c_resp v' = [].
+Proof. exact publish_confirm_outcome_with_returns. Qed.
+Print Assumptions C13_outcome_with_returns.
